@@ -7,4 +7,8 @@ int main() {
     sum += util::MurmurHash64A(line.data(), line.size());
   }
   std::cout << sum << std::endl;
+  if (!std::cout) {
+    std::cerr << "Error writing to stdout\n";
+    return 1;
+  }
 }
